@@ -480,6 +480,8 @@ def run(P, R, L):
     blind.ord12b_close_does_not_unwrap_shared_ownership(P, R, L)
     R.clause("GRD-38", "build_group_commit_batch fails only under the two conditions its caller excluded (the `?` on it while the writer heads the queue - ORD-11's exception - cannot fire)")
     blind.grd38_group_builder_errors_are_unreachable(P, R, L)
+    R.clause("LST-1", "the snapshot / version list repairs every link when a node is removed or pushed: a stale tail leaves `head` None behind a non-empty list and snapshots.oldest() panics on the compaction thread")
+    R.once(blind.lst1_link_repairs, P, R, L)
     R.clause("TS-3", "no abandon() of a table builder is reachable from behind its finalize() (abandon asserts that the file was not closed)")
     R.once(blind.ts3_no_abandon_after_finalize, P, R, L)
     R.clause("PAIR-10", "a table builder that was finalized/abandoned is removed from the compaction state on every path (a later abandon() of a closed "
